@@ -155,6 +155,28 @@ Section SeqFrame.
       split; [apply agree_refl|]. repeat split; reflexivity.
   Qed.
 
+  (* THE TITLE OF THE PROPERTY, for ordinary equations (every left-hand side is `Y[t]`, no index): solving period t
+     leaves every OTHER period of every variable bit-identical — whole columns q <> p of the value matrix, status and
+     iterations — for all options (offset included: it only seeds period p), both spellings of t, feasible or not *)
+  Theorem solve_t_P_ordinary_touches_only_t (prog : program) d o t s p :
+    wf_vals (length (status s)) (vals_of s) ->
+    (prog_lags num prog <= lags d)%nat -> (prog_leads num prog <= leads d)%nat ->
+    (forall i k, In (i, k) (prog_lhs num prog) -> k = 0) ->
+    py_pos (length (status s)) t = Some p ->
+    let s' := fst (solve_t_P prog d o t s) in
+    forall q, q <> p ->
+      (forall i, nth_error (nth i (vals_of s') []) q = nth_error (nth i (vals_of s) []) q) /\
+      nth_error (status s') q = nth_error (status s) q /\ nth_error (iters s') q = nth_error (iters s) q.
+  Proof.
+    intros Hwf Hlag Hlead Hord Hp. cbv zeta. intros q Hq.
+    destruct (solve_t_P_touches_only_assigned_cells num add sub mul div pow neg absf ltb leb eqb zero fun1 fun2 flagged isfin
+                prog d o t s p Hwf Hlag Hlead Hp) as (Hc & _ & _ & _ & Hst).
+    split; [|apply Hst; exact Hq].
+    intros i. apply Hc.
+    - intros k Hin. rewrite (Hord i k Hin). lia.
+    - right. right. exact Hq.
+  Qed.
+
   Definition seq_touched_at (prog : program) (d : mdesc) (o : opts num) (n : nat) (ts : list Z) (i q : nat) : Prop :=
     exists t, In t ts /\ touched_at prog d o n t i q.
 
